@@ -40,6 +40,10 @@ Definition dec_op (x : sx) : option top :=
       if is_sym "insert_with" t then Some (TInsertWith (get_B a) (get_B b) (get_bool c))
       else if is_sym "crash_upload" t then Some (TCrashUpload (get_B a) (get_B b) (get_N c))
       else None
+  | SL [t; a; b; c; _] =>
+      (* ( insert_with id content fail rewind ): where the writer leaves its cursor is not part of the
+         model - what is verified is the file *)
+      if is_sym "insert_with" t then Some (TInsertWith (get_B a) (get_B b) (get_bool c)) else None
   | _ => None
   end.
 
@@ -280,8 +284,66 @@ Definition run_mount (x : sx) : sx :=
   | _ => err "bad case"
   end.
 
+(* ---- the server leg: the real `Server` of sccache-dist (hook leg `tc`) in front of the cache.
+   case = ( cap ( (content id) ... ) ( id ... ) ( op ... ) )
+   ops  = (assign id) (submit job content) (stall job content k) (release) (run job)
+   obs  = ( res ( answer ... ) ( (id present) ... ) ( (path digest) ... ) ntmp ),
+          the presence list is empty while an upload holds the cache ---- *)
+Definition dec_sop (x : sx) : option sop :=
+  match x with
+  | SL [t] => if is_sym "release" t then Some SRelease else None
+  | SL [t; a] =>
+      if is_sym "assign" t then Some (SAssign (get_B a))
+      else if is_sym "run" t then Some (SRun (get_N a))
+      else None
+  | SL [t; a; b] => if is_sym "submit" t then Some (SSubmit (get_N a) (get_B b)) else None
+  | SL [t; a; b; _] => if is_sym "stall" t then Some (SStall (get_N a) (get_B b)) else None
+  | _ => None
+  end.
+
+Fixpoint dec_sops (l : list sx) : option (list sop) :=
+  match l with
+  | [] => Some []
+  | x :: r => match dec_sop x, dec_sops r with
+              | Some o, Some os => Some (o :: os)
+              | _, _ => None
+              end
+  end.
+
+Definition enc_sres (r : sres) : sx :=
+  match r with
+  | SNeed => sym "need" | SReady => sym "ready" | SErr => sym "err" | SBlocked => sym "blocked"
+  | SBusy => sym "busy" | SSuccess => sym "success" | SCannotCache => sym "cannot_cache"
+  | SJobNotFound => sym "job_not_found" | SStalled => sym "stalled" | SIdle => sym "idle"
+  | SFailed => sym "failed"
+  end.
+
+Definition enc_sobs (digest : bytes -> id) (ids : list id) (x : sres * list sres * sst) : sx :=
+  let '(r, a, s) := x in
+  let v := sv s in
+  let busy := match supl s with Some _ => true | None => false end in
+  SL [ enc_sres r; SL (map enc_sres a);
+       SL (if busy then [] else map (fun i => SL [SB i; sbool (tc_contains v i)]) ids);
+       SL (map (fun e => let c := match alookup (fst e) (cont v) with Some c => c | None => [] end in
+                         SL [SB (fst e); SB (digest c)]) (files (lru v)));
+       SN (if busy then 1 else 0) ].
+
+Definition run_server (x : sx) : sx :=
+  match x with
+  | SL [c; SL tab; SL ids; SL ops] =>
+      match dec_sops ops with
+      | Some os =>
+          let dg := table_digest (map dec_pair tab) in
+          let s0 := {| sv := initial (get_N c) []; sjobs := []; snjob := 0; supl := None; swait := []; sdirs := [] |} in
+          SL (map (enc_sobs dg (map get_B ids)) (strace dg s0 os))
+      | None => err "bad op"
+      end
+  | _ => err "bad case"
+  end.
+
 Definition dispatch (leg : list N) (x : sx) : sx :=
   if bytes_eqb leg (bs "tccache") then run_c17 x
   else if bytes_eqb leg (bs "client") then run_client x
   else if bytes_eqb leg (bs "mount") then run_mount x
+  else if bytes_eqb leg (bs "server") then run_server x
   else err "unknown leg".
